@@ -71,7 +71,11 @@ def dispatch(args):
         pre = None
         if what == 'C11':
             pre = lambda rep: c11_mutexwrapped(rep, tier, seed)   # noqa: E731
-        return checkA.run_check(what, profile, level, tier, seed, models, runs, rule, ASSUME_A, pre_finish=pre)
+        extra = None
+        if what in ('C09', 'C10'):
+            extra = {'exhaustive': False, 'exhaustive_per_model': True,
+                     'exhaustive_note': 'the fault space named in the rule is enumerated completely for every generated model; models and configurations themselves are sampled'}
+        return checkA.run_check(what, profile, level, tier, seed, models, runs, rule, ASSUME_A, extra=extra, pre_finish=pre)
     if what == 'C12':
         from . import checkC12
         u, h = (16, 60) if tier == 'quick' else (240, 400)
